@@ -38,6 +38,7 @@ META = {
 META["technique"] += "; sibling comparator unless/if (method by method after renaming); integer-exactness rule on the math filters' int branches"
 META["technique"] += "; operator-semantics lint: truncating Decimal remainder beside a flooring integer branch"
 META["technique"] += '; stringifier-use lint in the filters (str() of a parameter followed to the output); truthiness-by-membership lint'
+META["technique"] += "; no in-place list method on a filter's parameter"
 
 COUNT_SOURCES = {"render", "render_async", "render_with_context", "render_with_context_async", "write", "render_to_output", "render_to_output_async"}
 EX = "liquid2/builtin/expressions.py"
@@ -389,6 +390,10 @@ def run(prog: Program, res: Result) -> None:  # noqa: PLR0912, PLR0915
     from checks.shared import check_truthiness_by_membership
 
     check_truthiness_by_membership(prog, res, "C01.R22")
+    res.rule("C01.R23", "a filter returns a new value and leaves its input as it was: no filter function calls an in-place list method (reverse, sort, append, extend, insert, pop, remove, clear) on a parameter it has not rebound to a fresh list - `{{ a | reverse }}{{ a | first }}` shows the first element of a, not the last")
+    from checks.shared import check_filters_do_not_mutate_params
+
+    check_filters_do_not_mutate_params(prog, res, "C01.R23")
     res.rule("C01.R16", "a template string evaluates to text, whatever it interpolates and however many parts it has: every return of TemplateString.evaluate[_async] is `<sep>.join(<stringifier>(part) …)` - no short cut that hands back a part's raw value")
 
     _template_string_is_text_rule(prog, res)
